@@ -39,6 +39,7 @@ SHARDS = 16
 # is being used for sensitivity runs.
 REPO_ROOT = os.environ.get("VERIF_REPO") or "/repo"
 PY = sys.executable
+PRELUDE_RATE = 0.2  # share of runs that execute another generated program first, in the same process
 RUN_WALL_S = 120  # per-run watchdog (the slowest legitimate run measured under full machine load: 8 s; evidence reports it)
 
 
@@ -78,7 +79,21 @@ def execute_guarded(mod, program: dict) -> dict:
     signal.signal(signal.SIGALRM, _alarm)
     signal.alarm(int(getattr(mod, "RUN_WALL_S", RUN_WALL_S)))
     try:
+        pre = program.get("_prelude")
+        if pre is not None:
+            # session history across programs: another generated program of the same property is executed first
+            # in this process, its verdict ignored (it is judged as its own run); whatever it left behind in the
+            # library - module-level caches, class-level defaults, remembered failures - is the environment the
+            # judged program then runs in
+            try:
+                mod.execute(pre)
+            except Exception:  # noqa: BLE001
+                pass
         res = mod.execute(program)
+        if pre is not None:
+            res.setdefault("probes", {})["runner.prelude_program_executed_first"] = 1
+            if res.get("violation"):
+                res["violation"]["after_prelude"] = True
     except RunHang:
         res = {
             "violation": {"tag": "hang", "op": "run", "detail": f"no return within {getattr(mod, 'RUN_WALL_S', RUN_WALL_S)}s"},
@@ -129,6 +144,16 @@ def execute_isolated(mod, program: dict) -> dict:
 # shard worker
 
 
+def make_program(mod, prop: str, tier: str, verif_seed: int, i: int) -> dict:
+    seed = run_seed(verif_seed, prop, i)
+    program = mod.generate(Prng(seed), tier)
+    program["_seed"] = seed
+    program["_index"] = i
+    if Prng(seed).stream("runner.prelude").chance(PRELUDE_RATE):
+        program["_prelude"] = mod.generate(Prng(run_seed(verif_seed, prop, i + 1000003)), "quick")
+    return program
+
+
 def cmd_shard(prop: str, tier: str, verif_seed: int, shard: int, out: str) -> int:
     assert_repo()
     mod = load_prop(prop)
@@ -137,9 +162,7 @@ def cmd_shard(prop: str, tier: str, verif_seed: int, shard: int, out: str) -> in
     with open(out, "w") as f:
         for i in range(shard, n, SHARDS):
             seed = run_seed(verif_seed, prop, i)
-            program = mod.generate(Prng(seed), tier)
-            program["_seed"] = seed
-            program["_index"] = i
+            program = make_program(mod, prop, tier, verif_seed, i)
             t_run = time.time()  # measured outside the run; reported only, never logged into a digest
             res = execute_isolated(mod, program)
             rec = {
@@ -177,6 +200,20 @@ def size_of(program) -> int:
     return len(json.dumps(program, sort_keys=True))
 
 
+def _candidates(mod, program: dict):
+    pre = program.get("_prelude")
+    if pre is not None:
+        q = dict(program)
+        del q["_prelude"]
+        yield q
+    yield from mod.shrink_candidates(program)
+    if pre is not None:
+        for c in mod.shrink_candidates(pre):
+            q = dict(program)
+            q["_prelude"] = c
+            yield q
+
+
 def cmd_shrink(prop: str, path: str) -> int:
     assert_repo()
     mod = load_prop(prop)
@@ -194,7 +231,7 @@ def cmd_shrink(prop: str, path: str) -> int:
     t_end = time.time() + float(os.environ.get("VERIF_SHRINK_WALL_S", "240"))
     while improved and used < budget and time.time() < t_end:
         improved = False
-        for cand in mod.shrink_candidates(best):
+        for cand in _candidates(mod, best):
             if used >= budget or time.time() >= t_end:
                 break
             key = hashlib.sha1(json.dumps(cand, sort_keys=True).encode()).hexdigest()
@@ -225,8 +262,7 @@ def cmd_digests(prop: str, tier: str, verif_seed: int, start: int, count: int, s
     assert_repo()
     mod = load_prop(prop)
     for i in range(start, start + count * step, step):
-        seed = run_seed(verif_seed, prop, i)
-        program = mod.generate(Prng(seed), tier)
+        program = make_program(mod, prop, tier, verif_seed, i)
         ph = hashlib.sha256(json.dumps(program, sort_keys=True).encode()).hexdigest()[:16]
         res = execute_isolated(mod, program)
         v = res.get("violation")
